@@ -53,7 +53,7 @@ def run(prop, tier, seed, workdir, replaydir, build, log):
     res = {"violations": [], "inconclusive": [], "counters": {}, "samples": [], "evaluations": 0, "distinct": 0, "summary": {}}
     binpath = os.path.join(VERIF, "bin", "vrace")
     build("verif", binpath, "./cmd/vrace", cgo="1", race=True)
-    runs, duration = (3, 6) if tier == "quick" else (12, 25)
+    runs, duration = (6, 4) if tier == "quick" else (16, 20)
     procs = [one_run(binpath, seed * 100 + i, duration, workdir, i) for i in range(runs)]
     races = {}
     totals = {}
@@ -94,6 +94,8 @@ def run(prop, tier, seed, workdir, replaydir, build, log):
                 bad = ("loop-ended-early", "RunForever returned %r before it was told to stop" % s.get("loop_error"))
             elif not s.get("stopped"):
                 bad = ("loop-did-not-stop", "RunForever did not return within 30 s of the stop signal")
+            elif s.get("calls_after_loop_returned", 0) > 0:
+                bad = ("activity-after-loop-returned", "%d API calls arrived after RunForever had returned \"main loop stopped\": a scan is still running" % s["calls_after_loop_returned"])
             if bad:
                 path = os.path.join(replaydir, "race_run_%d.txt" % i)
                 open(path, "w").write(json.dumps(s, indent=1))
